@@ -107,3 +107,54 @@ Proof.
   - simpl. rewrite H0. lra.
   - simpl. rewrite H1. lra.
 Qed.
+
+(* ------------------------------------------------------------------ all Newton iterates stay left of the root *)
+(* x_{k+1} = x_k - f(x_k)/f'(x_k) with the true derivative *)
+Fixpoint newton (data : list (R * R)) (To target : R) (n : nat) (x : R) : R :=
+  match n with
+  | O => x
+  | S k => newton data To target k (x - fR data To target x / derR data To x)
+  end.
+
+(* left of a root f is non-negative (f is convex with a non-positive derivative) *)
+Lemma fR_nonneg_left : forall data To target x r, physical_data data ->
+  fR data To target r = 0 -> x <= r -> 0 <= fR data To target x.
+Proof.
+  intros data To target x r Hp Hr Hx. unfold fR in *.
+  pose proof (sumR_convex data To r x Hp) as Hc. pose proof (derR_nonpos data To r Hp) as Hd.
+  assert (0 <= derR data To r * (x - r)) by nra. lra.
+Qed.
+
+(* from a start value at which f >= 0 (left of the root), every iterate lies between the previous one and the
+   root: the iteration is monotone and never passes the root, for any number of steps *)
+Theorem newton_iterates_left : forall data To target r, physical_data data ->
+  fR data To target r = 0 -> (forall x, derR data To x < 0) ->
+  forall n x0, 0 <= fR data To target x0 ->
+    x0 <= newton data To target n x0 <= r /\ 0 <= fR data To target (newton data To target n x0) /\
+    newton data To target n x0 <= newton data To target (S n) x0.
+Proof.
+  intros data To target r Hp Hr Hd. induction n as [|n IH]; intros x0 H0.
+  - destruct (newton_left_monotone data To target x0 r Hp Hr H0 (Hd x0)) as [Ha Hb].
+    simpl. assert (x0 <= r) by lra. repeat split; try lra; assumption.
+  - destruct (newton_left_monotone data To target x0 r Hp Hr H0 (Hd x0)) as [Ha Hb].
+    set (x1 := x0 - fR data To target x0 / derR data To x0) in *.
+    assert (H1 : 0 <= fR data To target x1) by (apply (fR_nonneg_left data To target x1 r); assumption).
+    destruct (IH x1 H1) as [[Hc He] [Hf Hg]].
+    change (newton data To target (S n) x0) with (newton data To target n x1).
+    change (newton data To target (S (S n)) x0) with (newton data To target (S n) x1).
+    repeat split; try lra; assumption.
+Qed.
+
+(* the premises are satisfiable: one product of 1 uCi with decay constant 1/h, target 1/2: the derivative is negative
+   everywhere, the data are physical, ln 2 is the root and f(0) = 1/2 >= 0 *)
+Example newton_iterates_left_example :
+  physical_data [(1, 1)] /\ (forall x, derR [(1, 1)] 0 x < 0) /\ fR [(1, 1)] 0 (/ 2) (ln 2) = 0 /\
+  0 <= fR [(1, 1)] 0 (/ 2) 0.
+Proof.
+  repeat split.
+  - constructor; [simpl; lra|constructor].
+  - intro x. simpl. pose proof (exp_pos (- (1 * (x - 0)))). lra.
+  - unfold fR. simpl. replace (- (1 * (ln 2 - 0))) with (- ln 2) by ring.
+    rewrite exp_Ropp, exp_ln by lra. lra.
+  - unfold fR. simpl. replace (- (1 * (0 - 0))) with 0 by ring. rewrite exp_0. lra.
+Qed.
